@@ -318,7 +318,7 @@ class ScalarToFile(Module):
         3.14.__format__(fmt)
         self.format = fmt
 
-        self.separator = "," if ".csv" in self.saveto else separator
+        self.separator = "," if os.path.splitext(self.saveto)[1].lower() == ".csv" else separator
 
     def _response(self, *args):
         tags = [] if self.iter == 0 else None
